@@ -25,6 +25,14 @@ Proof.
 Qed.
 Print Assumptions C14_total.
 
+(* 1a. What decoding hands to the hashing code faithfully stands for Go maps: type names are unique and
+      every map in domain and message (at any depth) has unique keys — whatever duplicate or
+      case-folded keys the document contains. *)
+Theorem C14_decoded_maps_have_unique_keys :
+  forall doc td, decode_typed_data doc = Ok td -> wf_td td.
+Proof. exact decode_typed_data_wf. Qed.
+Print Assumptions C14_decoded_maps_have_unique_keys.
+
 (* 1b. The same for every value of the Go types, however it was built (nil payload, nil maps, nil
       member lists, nil members, undefined / cyclic / malformed type names ...). *)
 Theorem C14_total_any_payload :
